@@ -2,8 +2,42 @@
 import os
 from oblib import ob
 
-BOUNDS = {"quick": "", "thorough": ""}
-ASSUMPTIONS = []
+BOUNDS = {
+    "quick": (
+        "Token-level Encoder only (WriteToken/WriteValue, plus the internal UnwriteEmptyObjectMember/UnwriteOnlyObjectMemberName "
+        "driven exactly as arshal_default.go drives them). Internal buffer capacity 4, 8 or 16 bytes (growth by Flush included), so every "
+        "call crosses or nearly crosses the 75% flush threshold. wr/bbufW: fixed call shapes ([s,s,{a:s}] and similar, 4-8 calls) with 1-5 "
+        "symbolic string bytes (full range, Sigma24 or the 10-letter structural alphabet, see alpha=) and sequences with 2 solver-chosen calls "
+        "out of {{,},[,],null,7,string(1 byte),raw value(2 bytes)} after a concrete prelude; destination a non-bytes.Buffer writer (wr) or a "
+        "*bytes.Buffer of the same initial capacity (bbufW); compact, Multiline, and the newline-less mode of Marshal/MarshalWrite. Compared after "
+        "every call with a 256-byte-buffer twin and, for the first top-level value, with a writer-less encoder configured like json.Marshal. "
+        "short: 1-2 failing Write calls among the first 2-6, every accepted count 0..len(p). unwrite: 1-2 members, each value one of 15 kinds "
+        "(null, \"\", {}, [], \"x\", 0, {\"a\":null}, \"\\\"\", raw values with whitespace, [[]], [\"\"], a nested object emptied by its own retraction), "
+        "omitempty chosen per member, object at top level / inside an array / as a member value, namespace disabled (as the struct marshaler "
+        "does) or active (with duplicate-name probe). unwname: 2 keys of 1 symbolic byte. "
+        "OUTSIDE: json.Marshal/MarshalWrite/MarshalEncode of typed Go values (reflection-driven; not executable by the engine) - the claim is "
+        "established for the token-level Encoder they are built on, not for them; AppendRaw; capacities above 16 and outputs longer than ~40 bytes; "
+        "longer sequences; more than 2 write faults; writers that return n>len(p) or n<len(p) without error; indent strings other than one tab."
+    ),
+    "thorough": (
+        "As quick, plus: string length grid 0..6 for each capacity 4/8/16, raw-value shapes, 3 solver-chosen calls from the top level and after "
+        "four preludes (up to 7 calls in total), two faults on the longer shapes, unwrite with 3 members (15^3 value combinations x 2^3 omitempty "
+        "choices) for each capacity and both destinations, symbolic member names (1 byte from Sigma24: quote, backslash, newline, letters), "
+        "unwname with 3 keys and 2-byte keys. Same OUTSIDE list as quick."
+    ),
+}
+ASSUMPTIONS = [
+    "The encoder is built with encoderState.reset(make([]byte,0,c), w, opts...) - the call getStreamingEncoder makes - with a tiny c instead of the pooled buffer; "
+    "NewEncoder starts from capacity 0 and reaches the same small capacities through append, so these states are reachable through exported API.",
+    "Reference for 'fault-free output' is the real encoder with a 256-byte buffer over an accept-all writer (twin execution); its agreement with the "
+    "independent serialisation model zzspec.EncModel is C06's obligation, not repeated here.",
+    "UnwriteEmptyObjectMember is called only right after a complete member value, with prevName = name of the last member that stayed (nil if none), "
+    "as makeStructArshaler does; UnwriteOnlyObjectMemberName only right after the first name of an object, as the deterministic map marshaler does. "
+    "The struct marshaler's inlined fast path for writing names (optimizeCommon) is replaced by the equivalent WriteToken(String(name)).",
+    "StackPointer equality (ptr=1) is used as the observable for the name stack after flushes/retractions; it is evaluated once, after the last call, "
+    "because evaluating it copies the names out of the buffer.",
+    "bytes.Buffer is executed from its Go source by the engine (no stub).",
+]
 
 CW = ["accepted", "flushed-inside-value", "top-level-done"]
 
@@ -40,6 +74,7 @@ def obligations(tier):
         wr(L, "t", "[s{as}]", 16, 5, 0, 3, bb)
         wr(L, "t", "[s{as}]", 8, 2, 0, 1, bb, ws=1)
         wr(L, "t", "{a{bs}}", 4, 2, 0, 0, bb, nonl=True, ptr=True)
+        wr(L, "t", "{a{bs", 4, 2, 0, 1, bb, ptr=True, covers=["accepted", "flushed-inside-value"])
         wr(L, "t", "{a7??", 4, 1, 2, 0, bb, covers=SEQ + ["flushed-inside-value"])
         if not bb:
             wr(L, "t", "??", 4, 1, 2, 0, bb, covers=SEQ + ["top-level-done"])
@@ -51,6 +86,7 @@ def obligations(tier):
         wr(L, "t", "[ss{as}]", 4, 2, 0, 1, bb)
         wr(L, "t", "[{ss}]n", 8, 2, 0, 1, bb, ws=2, ptr=True)
         wr(L, "t", "n[s]", 4, 2, 0, 0, bb)
+        wr(L, "t", "[{a{b[s", 8, 3, 0, 3, bb, ptr=True, covers=["accepted", "flushed-inside-value"])
         wr(L, "t", "[v{av}]", 8, 0, 3, 0, bb)
         wr(L, "t", "???", 4, 1, 2, 0, bb, covers=SEQ + ["top-level-done"])
         wr(L, "t", "{a7??", 4, 1, 3, 0, bb, covers=SEQ + ["flushed-inside-value"])
@@ -62,6 +98,7 @@ def obligations(tier):
     short(L, "n[s]", 8, 3, 0, 3, 1, 2, ptr=True)
     short(L, "{as}", 8, 2, 0, 1, 1, 1, ws=1)
     short(L, "[7?", 4, 1, 2, 0, 1, 2, covers=("fault-seen", "recovered"))
+    short(L, "{a{bs", 4, 2, 0, 1, 1, 1, ptr=True, covers=("fault-seen", "partial-write-retained"))
     if not q:
         short(L, "[s{as}]", 4, 1, 0, 1, 2, 5)
         short(L, "[s{as}]", 8, 3, 0, 3, 2, 4, nonl=True, ptr=True)
